@@ -44,11 +44,14 @@ T read_binary(std::istream & fs)
         std::is_standard_layout_v<T>, "Binary IO type must be standard layout!"
     );
 
-    assert(fs.good() && !fs.eof() && !fs.fail() && !fs.bad());
-
     T rv;
 
-    fs.read(reinterpret_cast<char *>(&rv), sizeof(T));
+    if (!fs.read(reinterpret_cast<char *>(&rv), sizeof(T))) {
+        throw std::runtime_error(
+            "Deserialization of covfie vector field failed due to truncated "
+            "or unreadable input."
+        );
+    }
 
     return rv;
 }
